@@ -374,4 +374,248 @@ Section Main.
     rewrite Hm. destruct (cc_with_cors cfg); [|reflexivity].
     destruct (verdict_of r0); [reflexivity|reflexivity|discriminate].
   Qed.
+
+  (** ---- allowed or same-origin (and not a preflight): the reply of the same request without Origin,
+      plus access-control-allow-origin = the origin bytes — in every server state ---- *)
+  Lemma assoc_strip n hs : beq n H_ORIGIN = false ->
+    assoc n (filter (fun h : bytes * bytes => negb (beq (fst h) H_ORIGIN)) hs) = assoc n hs.
+  Proof.
+    intros Hn. induction hs as [|[k v] r IH]; [reflexivity|].
+    cbn [filter fst assoc]. destruct (beq k H_ORIGIN) eqn:E; cbn [negb].
+    - apply beq_eq in E; subst. rewrite Hn. exact IH.
+    - cbn [assoc]. rewrite IH. reflexivity.
+  Qed.
+  Lemma assoc_strip_origin hs : assoc H_ORIGIN (filter (fun h : bytes * bytes => negb (beq (fst h) H_ORIGIN)) hs) = None.
+  Proof.
+    induction hs as [|[k v] r IH]; [reflexivity|].
+    cbn [filter fst]. destruct (beq k H_ORIGIN) eqn:E; cbn [negb]; [exact IH|].
+    cbn [assoc]. rewrite beq_sym, E. exact IH.
+  Qed.
+  Lemma header_strip n r : beq n H_ORIGIN = false -> header n (strip_origin r) = header n r.
+  Proof. intros Hn. unfold header, strip_origin. cbn [rq_headers]. apply assoc_strip. exact Hn. Qed.
+
+  Lemma compute_strip r : starts_with (B "/./") (rq_path r) = false ->
+    compute_ov parse ipo conn_scheme cfg tt (strip_origin r) None true = compute_ov parse ipo conn_scheme cfg tt r None true.
+  Proof.
+    intros Hp. unfold compute_ov. cbn [negb]. change (rq_path (strip_origin r)) with (rq_path r).
+    destruct (find_marker (rq_path r) (cc_handlers cfg) 0 None) as [[i sp]|]; [reflexivity|].
+    destruct (beq (rq_path r) OV_FAIL) eqn:E1; [reflexivity|].
+    destruct (beq (rq_path r) OV_OPTIONS) eqn:E2; [|reflexivity].
+    apply beq_eq in E2. rewrite E2 in Hp. discriminate.
+  Qed.
+
+  Lemma serve_core_strip st now r : starts_with (B "/./") (rq_path r) = false ->
+    serve_core parse ipo conn_scheme cfg st now true (strip_origin r) None
+    = serve_core parse ipo conn_scheme cfg st now true r None.
+  Proof.
+    intros Hp. unfold serve_core. destruct st as [c []].
+    rewrite (compute_strip r Hp).
+    change (key_request (strip_origin r) None) with (strip_origin r). change (key_request r None) with r.
+    change (lookup (strip_origin r) c now) with (lookup r c now).
+    rewrite (header_strip (B "if-modified-since") r eq_refl).
+    unfold miss. rewrite (compute_strip r Hp). reflexivity.
+  Qed.
+
+  Lemma rw_strip r : rw cfg (strip_origin r) = strip_origin (rw cfg r).
+  Proof.
+    unfold rw. destruct (cc_new cfg); [|reflexivity].
+    unfold uri_redirect, strip_origin. cbn [rq_path rq_method rq_query rq_headers rq_addr].
+    destruct (rev (rq_path r)) as [|c l]; [reflexivity|].
+    destruct (c =? 46); [reflexivity|]. destruct (c =? 47); reflexivity.
+  Qed.
+
+  Lemma rw_external r : sanitize_ok_fix r = true -> starts_with (B "/./") (rq_path (rw cfg r)) = false.
+  Proof.
+    intros Hs. unfold rw. destruct (cc_new cfg).
+    - apply uri_redirect_external, sanitize_path, Hs.
+    - apply path_ok_external, sanitize_path, Hs.
+  Qed.
+
+  Lemma sanitize_strip r : sanitize_ok_fix (strip_origin r) = sanitize_ok_fix r.
+  Proof.
+    unfold sanitize_ok_fix, range_part_ok. change (rq_path (strip_origin r)) with (rq_path r).
+    rewrite (header_strip (B "range") r eq_refl). reflexivity.
+  Qed.
+
+  Lemma allowed_reply st now r0 a o :
+    header H_HOST r0 = Some a -> sanitize_ok_fix r0 = true -> stable cfg r0 ->
+    header H_ORIGIN r0 = Some o -> verdict_of r0 <> VRefuse -> pf_shape r0 = false ->
+    respond' st now r0
+    = (fst (respond' st now (strip_origin r0)),
+       let w := snd (respond' st now (strip_origin r0)) in
+       mkWire (w_status w) (if cc_with_cors cfg then set_header H_ACAO o (w_headers w) else w_headers w) (w_body w) (w_log w)).
+  Proof.
+    intros Ha Hs Hst Ho Hv Hpf.
+    assert (header H_HOST (strip_origin r0) = Some a) as Ha' by (rewrite (header_strip H_HOST r0 eq_refl); exact Ha).
+    assert (sanitize_ok_fix (strip_origin r0) = true) as Hs' by (rewrite sanitize_strip; exact Hs).
+    unfold respond, serve_ov.
+    rewrite (resolve_prime_eq parse conn_scheme cfg Hscheme r0 a Ha Hs).
+    rewrite (resolve_prime_eq parse conn_scheme cfg Hscheme (strip_origin r0) a Ha' Hs').
+    cbn [fst]. rewrite Hs, Hs'.
+    assert (ov_of parse conn_scheme cfg r0 = None) as Hov.
+    { unfold ov_of. rewrite Hpf. destruct (verdict_of r0); [reflexivity|reflexivity|congruence]. }
+    assert (ov_of parse conn_scheme cfg (strip_origin r0) = None) as Hov'.
+    { assert (header H_ORIGIN (strip_origin r0) = None) as Hn
+        by (unfold header, strip_origin; cbn [rq_headers]; apply assoc_strip_origin).
+      unfold ov_of, pf_shape, has, req_verdict, cors_spec. rewrite !Hn. rewrite andb_false_r. reflexivity. }
+    rewrite Hov, Hov', rw_strip, (serve_core_strip st now (rw cfg r0) (rw_external r0 Hs)).
+    destruct (serve_core parse ipo conn_scheme cfg st now true (rw cfg r0) None) as [[st' rp] lg]. cbn [fst snd].
+    rewrite (package_stable r0 a _ Ha Hst), Ho.
+    assert (cors_package parse ipo conn_scheme cfg (strip_origin (rw cfg r0)) (rp_headers rp) = rp_headers rp) as Hpk.
+    { unfold cors_package. destruct (cc_with_cors cfg); [|reflexivity].
+      unfold header, strip_origin. cbn [rq_headers]. rewrite assoc_strip_origin. reflexivity. }
+    rewrite Hpk. cbn [w_status w_headers w_body w_log].
+    change (rq_method (strip_origin r0)) with (rq_method r0).
+    destruct (cc_with_cors cfg); [|reflexivity].
+    destruct (verdict_of r0); [reflexivity|reflexivity|congruence].
+  Qed.
 End Main.
+
+(** ---- the invariant: no history stores anything under an internal route ---- *)
+Lemma no_internal_remove k c : no_internal c -> no_internal (c_remove k c).
+Proof.
+  intros Hc. induction c as [|[k' e] r IH]; [exact Hc|].
+  assert (no_internal r) as Hr by (intros k0 e0 Hin; apply (Hc k0 e0); right; exact Hin).
+  cbn [c_remove]. destruct (key_eqb k k'); [apply IH, Hr|].
+  intros k0 e0 [Hin|Hin]; [inversion Hin; subst; apply (Hc k0 e0); left; reflexivity|apply (IH Hr k0 e0 Hin)].
+Qed.
+Lemma no_internal_insert k e c : key_internal k = false -> no_internal c -> no_internal (c_insert k e c).
+Proof.
+  intros Hk Hc k0 e0 [Hin|Hin]; [inversion Hin; subst; exact Hk|apply (no_internal_remove k c Hc k0 e0 Hin)].
+Qed.
+Lemma c_find_external k c e : no_internal c -> c_find k c = Some e -> key_internal k = false.
+Proof.
+  intros Hc. induction c as [|[k' e'] r IH]; [discriminate|].
+  cbn [c_find]. destruct (key_eqb k k') eqn:E.
+  - intros _. apply key_eqb_internal in E. rewrite <- E. apply (Hc k' e'). left. reflexivity.
+  - apply IH. intros k0 e0 Hin. apply (Hc k0 e0). right. exact Hin.
+Qed.
+Lemma get_item_inv k c now res c' : get_item k c now = (res, c') -> no_internal c ->
+  no_internal c' /\ (forall e, res = Some e -> key_internal k = false).
+Proof.
+  unfold get_item. intros H Hc. destruct (c_find k c) as [e|] eqn:F.
+  - pose proof (c_find_external k c e Hc F) as Hk. destruct (fresh e now); inversion H; subst.
+    + split; [exact Hc|intros; exact Hk].
+    + split; [apply no_internal_remove, Hc|discriminate].
+  - inversion H; subst. split; [exact Hc|discriminate].
+Qed.
+Lemma lookup_inv r c now k found c1 : lookup r c now = ((k, found), c1) -> no_internal c ->
+  no_internal c1 /\ (forall e, found = Some e -> key_internal k = false).
+Proof.
+  unfold lookup. intros H Hc. destruct (get_item (key_pq r) c now) as [res c'] eqn:G1.
+  destruct (get_item_inv _ _ _ _ _ G1 Hc) as [Hc' Hk1]. destruct res as [e|].
+  - inversion H; subst. split; [exact Hc'|intros e0 _; apply (Hk1 e eq_refl)].
+  - destruct (get_item (key_p r) c' now) as [res2 c''] eqn:G2.
+    destruct (get_item_inv _ _ _ _ _ G2 Hc') as [Hc'' Hk2]. inversion H; subst. split; [exact Hc''|exact Hk2].
+Qed.
+Lemma insert_key_external r f : starts_with (B "/./") (rq_path r) = false -> key_internal (insert_key r f) = false.
+Proof.
+  intros Hp. unfold insert_key, key_pq, key_p, path_query.
+  destruct (f_spref f =? SP_QUERY); [|exact Hp].
+  destruct (rq_query r) as [q|]; cbn [key_internal].
+  - rewrite firstn_app_exact. exact Hp.
+  - rewrite firstn_all. exact Hp.
+Qed.
+
+Section Invariant.
+  Variable parse : bytes -> option uparts.
+  Variable ipo : bytes -> option bytes -> option bytes -> bool.
+  Variable conn_scheme : bytes.
+  Variable cfg : ccfg.
+
+  Lemma compute_not_ok r ov f lg : compute_ov parse ipo conn_scheme cfg tt r ov false = (f, tt, lg) ->
+    wants_cache (cc_cache cfg) (rq_method r) f = false.
+  Proof.
+    unfold compute_ov. cbn [negb]. intros H. inversion H; subst.
+    unfold wants_cache. cbn [error_fat f_spref]. change (pref_caches SP_NONE) with false. rewrite andb_false_r. reflexivity.
+  Qed.
+
+  Lemma miss_no_internal c1 now r ok ov :
+    no_internal c1 -> (ok = true -> starts_with (B "/./") (rq_path r) = false) ->
+    no_internal (fst (fst (fst (miss unit (fun hs r ok => compute_ov parse ipo conn_scheme cfg hs r ov ok) (cc_cache cfg) true
+                                 no_negotiate no_vary_tuple no_vary_header c1 tt now r ok)))).
+  Proof.
+    intros Hc Hp. unfold miss. destruct (compute_ov parse ipo conn_scheme cfg tt r ov ok) as [[f []] lg] eqn:Hcomp.
+    destruct (may_store (cc_cache cfg) (rq_method r) f) eqn:M; cbn [fst]; [|exact Hc].
+    apply no_internal_insert; [|exact Hc]. apply insert_key_external.
+    destruct ok; [apply Hp; reflexivity|].
+    apply compute_not_ok in Hcomp. unfold may_store in M. rewrite Hcomp in M. discriminate.
+  Qed.
+
+  Lemma serve_core_no_internal c now ok r ov :
+    no_internal c -> (ok = true -> starts_with (B "/./") (rq_path r) = false) ->
+    no_internal (fst (fst (fst (serve_core parse ipo conn_scheme cfg (c, tt) now ok r ov)))).
+  Proof.
+    intros Hc Hp. unfold serve_core. destruct (negb (cc_cache cfg)).
+    - destruct (compute_ov parse ipo conn_scheme cfg tt r ov ok) as [[f hs'] lg]. exact Hc.
+    - destruct (lookup (key_request r ov) c now) as [[k found] c1] eqn:L.
+      destruct (lookup_inv _ _ _ _ _ _ L Hc) as [Hc1 Hk].
+      destruct found as [e|]; [|apply miss_no_internal; assumption].
+      destruct (ok && get_or_head (rq_method r)); [|apply miss_no_internal; assumption].
+      destruct (match match header (B "if-modified-since") r with Some v => parse_ims_fix v | None => None end with
+                | Some t => ims_fresh t (e_created e) | None => false end); [exact Hc1|].
+      destruct (v_find (no_vary_tuple r) (e_vars e)); [exact Hc1|].
+      destruct (compute_ov parse ipo conn_scheme cfg tt r ov ok) as [[f hs'] lg]. cbn [fst].
+      apply no_internal_insert; [apply (Hk e eq_refl)|exact Hc1].
+  Qed.
+
+  Lemma resolve_tail r0 u : sanitize_ok_fix r0 = true ->
+    resolve_prime parse ipo conn_scheme cfg (if cc_new cfg then [((-100)%Z, P_uri_redirect)] else []) r0 u = (rw cfg r0, u).
+  Proof.
+    intros Hs. unfold rw. destruct (cc_new cfg); [|reflexivity].
+    cbn [resolve_prime call_prime].
+    destruct (beq (rq_path (uri_redirect r0)) (rq_path r0)) eqn:E.
+    - f_equal. apply beq_eq in E. destruct (uri_redirect_fields r0) as (Hm & Hq & Hh & Had).
+      destruct r0 as [m p q h ad], (uri_redirect (mkReq m p q h ad)) as [m' p' q' h' ad'] eqn:U; cbn in *; subst; reflexivity.
+    - rewrite (uri_redirect_external r0 (sanitize_path r0 Hs)).
+      destruct (uri_redirect_fields r0) as (Hm & Hq & Hh & Had).
+      f_equal. destruct (uri_redirect r0) as [m' p' q' h' ad'] eqn:U; cbn in *; subst; reflexivity.
+  Qed.
+
+  Lemma call_gate_shape r :
+    call_prime parse ipo conn_scheme cfg (gate_id cfg) r = None \/
+    call_prime parse ipo conn_scheme cfg (gate_id cfg) r = Some (OV_FAIL, None).
+  Proof.
+    unfold gate_id. destruct (cc_with_cors cfg); cbn [call_prime].
+    - destruct (req_check parse ipo conn_scheme (cc_rules cfg) r); [left|right]; reflexivity.
+    - destruct (header H_ORIGIN r) as [o|]; [|left; reflexivity].
+      destruct (to_str_ok o); [destruct (ipo o (Some conn_scheme) (header H_HOST r)); cbn [negb]; [left|right]; reflexivity|right; reflexivity].
+  Qed.
+
+  Lemma call_options' r :
+    call_prime parse ipo conn_scheme cfg P_options r = if pf_shape r then Some (OV_OPTIONS, None) else None.
+  Proof. reflexivity. Qed.
+
+  Lemma resolve_prime_fst r0 : sanitize_ok_fix r0 = true ->
+    fst (resolve_prime parse ipo conn_scheme cfg (prime_list cfg) r0 None) = rw cfg r0.
+  Proof.
+    intros Hs. rewrite prime_list_shape. cbn [resolve_prime].
+    destruct (call_gate_shape r0) as [-> | ->]; rewrite call_options'; destruct (pf_shape r0);
+      repeat (change (starts_with (B "/./") OV_FAIL) with true; change (starts_with (B "/./") OV_OPTIONS) with true; cbv iota);
+      rewrite (resolve_tail r0 _ Hs); reflexivity.
+  Qed.
+
+  Lemma respond_no_internal c now r0 :
+    no_internal c -> no_internal (fst (fst (respond parse ipo conn_scheme cfg (c, tt) now r0))).
+  Proof.
+    intros Hc. unfold respond, serve_ov.
+    destruct (resolve_prime parse ipo conn_scheme cfg (prime_list cfg) r0 None) as [r ov] eqn:R.
+    pose proof (serve_core_no_internal c now (sanitize_ok_fix r0) r ov Hc) as H.
+    destruct (serve_core parse ipo conn_scheme cfg (c, tt) now (sanitize_ok_fix r0) r ov) as [[st' rp] lg]. cbn [fst] in *.
+    apply H. intros Hs. pose proof (resolve_prime_fst r0 Hs) as Hf. rewrite R in Hf. cbn [fst] in Hf. subst r.
+    unfold rw. destruct (cc_new cfg).
+    - apply uri_redirect_external, sanitize_path, Hs.
+    - apply path_ok_external, sanitize_path, Hs.
+  Qed.
+
+  (** every cache state reachable by a history of requests (at any times) and clears keeps the invariant *)
+  Lemma reachable_no_internal ops st now :
+    no_internal (fst st) -> no_internal (fst (run_conn_state parse ipo conn_scheme cfg st now ops)).
+  Proof.
+    revert st now. induction ops as [|[[r|] dt] rest IH]; intros [c []] now Hc; cbn [run_conn_state].
+    - exact Hc.
+    - apply IH. pose proof (respond_no_internal c (now + dt) r Hc) as H.
+      destruct (respond parse ipo conn_scheme cfg (c, tt) (now + dt) r) as [[c' []] w]. exact H.
+    - apply IH. cbn [fst snd]. intros k e [].
+  Qed.
+End Invariant.
